@@ -128,6 +128,8 @@ static void fill(Stream&& st, int t, int s, bool named)
 
 std::string check(const Case& c0, vf::Ctx& ctx)
 {
+    // a deadlock shows as no progress at all: blocked threads use no CPU time
+    vf::arm_wall_watchdog(75);
     Case c = c0;
     c.threads = std::max(2, std::min(c.threads, MAXT));
     c.per_thread = std::max(1, std::min(c.per_thread, MAXN));
